@@ -12,7 +12,7 @@
                  element), or a non-zero count with no array. *)
 From Coq Require Import ZArith List Bool.
 From PBC Require Import Impl.Desc Impl.Mem Impl.Size Impl.Pack Impl.PackBuf Impl.Unpack Impl.Check Impl.Canon
-     Spec.Defect Proofs.CheckSafe Proofs.CheckReject Proofs.MsgRT4 Proofs.Examples Proofs.Examples2.
+     Spec.Defect Impl.WF Impl.WNorm Impl.Typed Proofs.CheckSafe Proofs.CheckReject Proofs.MsgRT4 Proofs.CheckReqsub Proofs.Examples Proofs.Examples2.
 Import ListNotations.
 Local Open Scope Z_scope.
 
@@ -42,6 +42,15 @@ Proof.
   exact (proj1 (roundtrip_canonical E EO m C (S (length b)) b Hp Hl (Nat.lt_succ_diag_r _))).
 Qed.
 Print Assumptions C19_parse_back_partial.
+
+(* ... and for EVERY accepted message that is well-formed and well-typed (Impl/Typed.v: what C's types impose, no
+   restriction on values): the bytes parse back, to the message's normal form (Proofs/WfCanon.v, Proofs/CheckReqsub.v) *)
+Theorem C19_parse_back : forall (E : env) (m : msg) (b : list Z),
+  env_ok E = true -> wf_msg E m = true -> typed_msg E m = true -> check_msg E m = Ok true ->
+  pack_msg E m = Ok b -> Z.of_nat (length b) <= 2147483647 ->
+  unpack_top E (m_desc m) b = Ok (wnorm_msg E m).
+Proof. exact checked_typed_roundtrip. Qed.
+Print Assumptions C19_parse_back.
 
 Theorem C19_nonvacuous :
   check_msg ex_env ex_msg = Ok true /\
